@@ -284,7 +284,8 @@ func checkC07(c *Ctx) {
 			path := findPath(from, pathQuery{target: waitsAgain, avoid: runsRound})
 			c.Check(path == nil, "R3", site, op.In.Pos(), "every path from the receive runs a refresh round before the goroutine waits again or returns", "a refresh request is taken off the channel and dropped ("+p.pathString(path)+"): a redirection that arrived while a round was in flight loses its refresh when that round's answer predates the change - the table stays stale until another redirection happens to land outside a round, or until the periodic refresh")
 		}
-		if nRecv == 0 {
+		// (a channel wrapped in a type whose operations are not resolved yields no operations at all: nothing to judge)
+		if nRecv == 0 && len(p.chanOpsOnField(refreshCh)) > 0 {
 			c.Fail("R3", "the refresh channel has a receiver", refresh.Pos(), "nothing receives from the refresh channel: triggers are never served")
 		}
 	}
